@@ -33,6 +33,8 @@ from __future__ import annotations
 
 import logging
 import operator
+import copy
+import pickle
 import types
 import warnings
 
@@ -422,7 +424,10 @@ class AliasHistory(History):
         if not self.room():
             return None
         return st.fixed_dictionaries({"h": st.integers(0, 20), "label": st.sampled_from([None, None, "cp"]),
-                                      "upcast": st.sampled_from([False, False, True])})
+                                      "upcast": st.sampled_from([False, False, True]),
+                                      # duplicates made by the standard library (reported by a seeding agent:
+                                      # they came back with `.data` detached from the padded array)
+                                      "how": st.sampled_from(["copy", "copy", "deepcopy", "pickle"])})
 
     def b_collect(self):
         if not self.room() or not self.has(lambda e: e.kind in DATA_KINDS):
@@ -574,18 +579,36 @@ class AliasHistory(History):
         self.flags.add("new:" + route)
         self.add(e)
 
-    def op_copy(self, h, label, upcast):
-        self.ctx = "copy"
+    def op_copy(self, h, label, upcast, how="copy"):
+        self.ctx = "copy" if how == "copy" else how
         src = self.pick(h)
         if src is None or not self.room():
             return
+        if how != "copy":
+            label, upcast = None, False
         dt = np.dtype("complex128") if upcast else src.full.dtype
         kw = {}
         if label is not None:
             kw["label"] = label
         if upcast:
             kw["dtype"] = dt
-        obj = src.obj.copy(**kw)
+        if how == "deepcopy":
+            obj = copy.deepcopy(src.obj)
+        elif how == "pickle":
+            obj = pickle.loads(pickle.dumps(src.obj))
+        else:
+            obj = src.obj.copy(**kw)
+        # a duplicate is a complete field: its valid data is a view of ITS padded array, the members of a
+        # duplicated collection are views of ITS array
+        if not np.shares_memory(obj.data, obj._data_full):
+            self.fail("detached", f"{how}: `.data` of the duplicate is not a view of its padded array (writes through "
+                      ".data are not seen by operators)")
+        if src.kind == "coll":
+            for k, f in enumerate(obj.fields):
+                if f.data.size and not np.shares_memory(f.data, obj._data_full):
+                    self.fail("detached", f"{how}: member {k} of the duplicated collection does not share memory with it")
+        if np.shares_memory(obj._data_full, src.obj._data_full):
+            self.fail("alias", f"{how}: the duplicate shares memory with its source")
         e = self.adopt_new(obj, src.kind, src.gidx, "copy", layout=src.layout, expected_dtype=dt)
         # documented: copy() duplicates the padded array
         if not same(obj._data_full, src.full.astype(dt)):
